@@ -55,14 +55,6 @@ def oracle(p):
     return bad
 
 
-def finding_of(v):
-    # F-C22-1: exactly a ProtocolError from the connection state machine of a server that is in CLIENT_OPEN
-    d = v.get('detail') or {}
-    if v['rule'] == 'push_stream was refused although every push rule is satisfied' and d.get('conn_state') == 1 and d.get('outcome') == [1, 0, 1]:
-        return 'F-C22-1'
-    return None
-
-
 def scenarios(run):
     out = []
     RX = lambda *fs: ('Receive', [(f, None, {}) for f in fs])
@@ -84,7 +76,7 @@ def scenarios(run):
             out.append((cfg, z + [('UpdateSettings', [(2, 0)]), RX(('PushPromise', 1, 20, ('Decoded', t2.REQ)))]))                         # disabled, not yet acknowledged
             out.append((cfg, z + [('UpdateSettings', [(2, 0)]), RX(('Settings', True, [])), RX(('PushPromise', 1, 20, ('Decoded', t2.REQ)))]))
         else:
-            # F-C22-1: the server application sent HEADERS on a fresh even stream before the first request
+            # fixed 12650a7 (was F-C22-1): the server application tries to send HEADERS on a fresh even stream before the first request
             out.append((cfg, [('Initiate',), ('SendHeaders', 2, t2.RESP, 0, False, None, None, None), RX(('Headers', 3, False, None, ('Decoded', t2.REQ))),
                               ('PushStream', 3, 6, t2.REQ, 0)]))
             out.append((cfg, z + [RX(('Settings', False, [(2, 0)])), ('PushStream', 1, 20, t2.REQ, 0), RX(('Settings', False, [(2, 1)])), ('PushStream', 1, 20, t2.REQ, 0)]))
@@ -92,7 +84,7 @@ def scenarios(run):
     return out
 
 
-SPEC = dict(parts=PARTS, weights=WEIGHTS, rf_weights=RF, n_quick=200, n_thorough=5000, n_ops=30, oracle=oracle, finding_of=finding_of, scenarios=scenarios, extra_obligations=1,
+SPEC = dict(parts=PARTS, weights=WEIGHTS, rf_weights=RF, n_quick=200, n_thorough=5000, n_ops=30, oracle=oracle, scenarios=scenarios,
             nontrivial=lambda p: any(op[0] == 'PushStream' or (op[0] == 'Receive' and any(e[0][0] == 'PushPromise' for e in op[1])) for op in p['ops']),
             rule='push-heavy programs: push_stream on parents in every state (zoo) with promised ids new / used / odd / zero, ENABLE_PUSH toggled by either side with and without '
                  'acknowledgement, PUSH_PROMISE received on every kind of stream, pushes on pushed streams on both ends; compared with the model and judged by the push rules '
@@ -101,9 +93,6 @@ SPEC = dict(parts=PARTS, weights=WEIGHTS, rf_weights=RF, n_quick=200, n_thorough
 
 
 def check(run):
-    from harness import common
-    with common.Lock():
-        common.build(['Properties/C22_refuted.vo'])
     return _conn.conn_check(run, SPEC)
 
 
